@@ -701,6 +701,9 @@ class _Gen:
             return []
         aid = self.pick(cands)
         k = self.d(st.integers(0, self.arrays[aid]["len"] - 1))
+        if self.arrays[aid]["defined"] and self._empty():
+            # a loop_until whose body does nothing: the exit test alone decides (at once, or after max_iterations passes)
+            return [["until", lid, maxit, [], ["elem", aid, k], self.pick([0, 1, 5, -1]), None]]
         q = self.n_q
         self.n_q += 1
         body = self.block(inner, depth + 1, 0, 2)
